@@ -59,13 +59,9 @@ def check_array_shape(inp: np.ndarray, dims: tuple, shape_m1: int, length=None, 
     msg: str, error msg
     """
     if inp.ndim in dims:
-        if length is None:
-            if inp.shape[-1] == shape_m1:
+        if shape_m1 == "any" or inp.shape[-1] == shape_m1:
+            if length is None or len(inp) == length:
                 return None
-            if shape_m1 == "any":
-                return None
-        elif len(inp) == length:
-            return None
     raise MagpylibBadUserInput(msg)
 
 
